@@ -408,6 +408,7 @@ def loadBinary (w : World) (name : String) : Decision :=
 structure ProgDecl where
   name : String                -- "dir/file.c"
   save : Bool                  -- #pragma save_binary
+  refuse : Bool := false       -- the master's valid_save_binary() refuses this program
   includes : List String
   inherits : List String
   deriving Repr, BEq, Inhabited
@@ -431,10 +432,11 @@ structure Sys where
 def Sys.decl (s : Sys) (name : String) : Option ProgDecl := s.decls.find? (·.name == name)
 
 /-- the end of a compile (`epilog`): with `#pragma save_binary` in force `save_binary` is called, which writes the binary
-    (current `config_id`, modification time = now) unless an inherited program is outdated -/
+    (current `config_id`, modification time = now) unless the master refuses (`valid_save_binary`) or an inherited program
+    is outdated -/
 def saveStep (s : Sys) (d : ProgDecl) (linked : List (String × Nat)) : Sys :=
   if !d.save then s
-  else if !(saveAllowed s.w linked) then { s with evs := Ev.svSkipped d.name :: s.evs }
+  else if d.refuse || !(saveAllowed s.w linked) then { s with evs := Ev.svSkipped d.name :: s.evs }
   else
     let bp := binPath s.w d.name
     let b : BinFile := { magic := magicId, driverId := driverId, configId := s.w.configId,
